@@ -457,3 +457,18 @@ func Spec256(op string, a ...*big.Int) *big.Int {
 	}
 	panic("verifsym.Spec256: unknown op " + op)
 }
+
+// Mul64 returns the 128-bit product of two 64-bit words as (hi, lo).  Under the
+// engine it is a single 128-bit SMT multiplication (specification level).
+func Mul64(a, b uint64) (hi, lo uint64) {
+	const m32 = 1<<32 - 1
+	a0, a1 := a&m32, a>>32
+	b0, b1 := b&m32, b>>32
+	w0 := a0 * b0
+	t := a1*b0 + w0>>32
+	w1, w2 := t&m32, t>>32
+	w1 += a0 * b1
+	hi = a1*b1 + w2 + w1>>32
+	lo = a * b
+	return
+}
